@@ -265,6 +265,7 @@ Definition api_bind (w : world) (key : pkey) (uid node : str) (ips : list N) (in
   match w_pods w !! key with
   | None => (w, BindNotFound)
   | Some q => if negb (match uid with [] => true | _ => str_eqb uid (pd_uid q) end) then (w, BindFail)
+              else if negb (Keys.is_empty (pd_node q)) then (w, BindFail)      (* "pod is already assigned to node" *)
               else (set_pods w (<[key := {| pd_ns := pd_ns q; pd_name := pd_name q; pd_uid := pd_uid q; pd_kind := pd_kind q;
                                             pd_app := pd_app q; pd_pool := pd_pool q; pd_policy := pd_policy q;
                                             pd_ranges := pd_ranges q; pd_phase := pd_phase q; pd_node := node;
@@ -288,7 +289,7 @@ Fixpoint assign_loop (w : world) (key node : str) (a : attr) (ips : list N) (reu
       else assign_loop w1 key node a rest reused (S idx) ridx fl
   end.
 
-Definition bind_section (f2 : bool) (w : world) (ns name uid node : str) (o : oracle) (fl : faults) : world * bres :=
+Definition bind_section (f2 f13 : bool) (w : world) (ns name uid node : str) (o : oracle) (fl : faults) : world * bres :=
   match w_lister w !! (ns, name) with
   | None => (w, BErr)
   | Some p =>
@@ -312,10 +313,10 @@ Definition bind_section (f2 : bool) (w : world) (ns name uid node : str) (o : or
           let reused := List.concat (map (fun s => match s with Some x => [x] | None => [] end) slots) in
           let missing := List.concat (map (fun sr => match fst sr with None => [snd sr] | Some _ => [] end) (combine slots rss)) in
           let a := {| a_policy := policy_of p; a_node := node; a_uid := pd_uid p |} in
-          (* the stored-UID guard *)
+          (* the stored-UID guard; [f13] (repaired): over ALL IPs of the key, not only the ones about to be re-used *)
           if existsb (fun x => match i_alloc i !! x with
                                | Some e => negb (Keys.is_empty (e_uid e)) && negb (str_eqb (e_uid e) (pd_uid p))
-                               | None => false end) reused then (w, BErr) else
+                               | None => false end) (if f13 then map fst (by_key i key) else reused) then (w, BErr) else
           let need_alloc := match missing, slots with _ :: _, _ => true | _, [] => true | _, _ => false end in
           let alloc_res : option (world * option (list N)) :=       (* Some (w', Some final ips) | Some (w, None) = error | None = stuck *)
             if need_alloc then
@@ -604,7 +605,7 @@ Definition pstep (w : world) (o : pop) : world * pout :=
                   end
       end
   | PBind ns name uid node orc fl =>
-      match bind_section true w ns name uid node orc fl with
+      match bind_section true true w ns name uid node orc fl with
       | (w', BOk ips) => (w', RIps ips)
       | (w', BErr) => (w', RErr)
       | (w', BStuck) => (w', RStuck)
